@@ -17,15 +17,14 @@ TRIG_FUNS = {f: 'CoefSrc.Trig_' + f for f in ('cos_2', 'sin_3', 'cos_4', 'sin_5'
 COEFF_NAMES = {'x': 0, 'y': 1, 'z': 2, 'w': 3}
 # classes: (header, C++ class, Lean namespace); order = dependency order
 CLASSES = [('so2.hpp', 'SO2Impl', 'SO2'), ('c1.hpp', 'C1Impl', 'C1'), ('tn.hpp', 'TnImpl', 'Tn'),
-           ('se2.hpp', 'SE2Impl', 'SE2'), ('so3.hpp', 'SO3Impl', 'SO3'), ('se3.hpp', 'SE3Impl', 'SE3')]
+           ('se2.hpp', 'SE2Impl', 'SE2'), ('so3.hpp', 'SO3Impl', 'SO3'), ('se3.hpp', 'SE3Impl', 'SE3'),
+           ('galilei.hpp', 'GalileiImpl', 'Galilei'), ('se_k_3.hpp', 'SE_K_3Impl', 'SEK3')]
+# template parameters that stay symbolic: C++ name -> Lean binder
+SYMBOLIC = {'Tn': ('N', 'n'), 'SEK3': ('_K', 'k')}
 # functions that are deliberately NOT translated, with the reason (anything else that cannot be
 # translated is a hard error)
 EXCLUDED = {
     ('*', 'setRandom'): "draws from Eigen's random number generator; not a function of its arguments",
-    ('SE3', 'calculate_Q_dQ'): "the 3x18 table dQ is tied separately by tools/gen_dq.py (Gen/SE3dQ.lean); "
-                               "returns a std::pair through structured bindings",
-    ('SE3', 'd2r_exp'): "uses calculate_Q_dQ (see there)",
-    ('SE3', 'd2r_expinv'): "uses calculate_Q_dQ and the template d_matrix_product of another header",
 }
 REF_TYPES = {'GRefIn': ('in', 'V', 'RepSize'), 'GRefOut': ('out', 'V', 'RepSize'),
              'TRefIn': ('in', 'V', 'Dof'), 'TRefOut': ('out', 'V', 'Dof'),
@@ -37,60 +36,125 @@ LEAN_KEYWORDS = {'at', 'from', 'by', 'do', 'in', 'fun', 'let', 'have', 'show', '
                  'Prop', 'Sort', 'local', 'private', 'mutual', 'namespace', 'section', 'variable', 'import'}
 
 
-# ------------------------------------------------------------------ symbolic dimension (TnImpl<N>)
+# ------------------------------------------------------------------ symbolic dimensions and indices
 class Sym:
-    """a·n + b with a ∈ {0,1,…}: dimensions of TnImpl<N>"""
+    """integer linear form  b + Σ c_s·s  over symbols: the class dimension (`n` of TnImpl<N>, `k` of
+    SE_K_3Impl<K>) and the counters of loops with a symbolic bound"""
 
-    def __init__(self, a, b):
-        self.a, self.b = a, b
+    def __init__(self, terms, b=0):
+        self.t = {s: c for s, c in terms.items() if c != 0}
+        self.b = b
+
+    @staticmethod
+    def var(name):
+        return Sym({name: 1}, 0)
 
     @staticmethod
     def of(x):
-        return x if isinstance(x, Sym) else Sym(0, x)
+        return x if isinstance(x, Sym) else Sym({}, x)
 
     def __add__(self, o):
         o = Sym.of(o)
-        return norm(Sym(self.a + o.a, self.b + o.b))
+        t = dict(self.t)
+        for s, c in o.t.items():
+            t[s] = t.get(s, 0) + c
+        return norm(Sym(t, self.b + o.b))
     __radd__ = __add__
 
+    def __neg__(self):
+        return norm(Sym({s: -c for s, c in self.t.items()}, -self.b))
+
     def __sub__(self, o):
-        o = Sym.of(o)
-        return norm(Sym(self.a - o.a, self.b - o.b))
+        return self + (-Sym.of(o))
 
     def __rsub__(self, o):
         return Sym.of(o) - self
 
     def __mul__(self, o):
         if isinstance(o, Sym):
-            if o.a == 0:
+            if not o.t:
                 o = o.b
-            elif self.a == 0:
+            elif not self.t:
                 return o * self.b
             else:
                 raise TrErr('non-linear symbolic dimension')
-        return norm(Sym(self.a * o, self.b * o))
+        return norm(Sym({s: c * o for s, c in self.t.items()}, self.b * o))
     __rmul__ = __mul__
 
     def __eq__(self, o):
         o = Sym.of(o)
-        return self.a == o.a and self.b == o.b
+        return self.t == o.t and self.b == o.b
 
     def __hash__(self):
-        return hash((self.a, self.b))
+        return hash((tuple(sorted(self.t.items())), self.b))
+
+    def subst(self, name, val):
+        """replace symbol `name` by the linear form `val`"""
+        c = self.t.get(name, 0)
+        rest = Sym({s: k for s, k in self.t.items() if s != name}, self.b)
+        return Sym.of(rest + Sym.of(val) * c)
 
     def __str__(self):
-        if self.a < 0 or self.b < 0:
-            raise TrErr('negative symbolic dimension')
-        s = 'n' if self.a == 1 else f'{self.a} * n'
-        return s if self.b == 0 else f'({s} + {self.b})'
+        if self.b < 0 or any(c < 0 for c in self.t.values()):
+            raise TrErr('negative symbolic dimension / index')
+        if list(self.t) == ['n']:
+            # TnImpl<N>: `n`, `a * n`, `(n + b)` — the forms the hand model SmoothModel/Tn.lean uses
+            a = self.t['n']
+            s = 'n' if a == 1 else f'{a} * n'
+            return s if self.b == 0 else f'({s} + {self.b})'
+        # SE_K_3Impl<K> and loop counters: constant first, as the source and SmoothModel/SEK3.lean write them
+        parts = ([str(self.b)] if self.b else []) + [s if c == 1 else f'{c} * {s}' for s, c in self.t.items()]
+        if len(parts) == 1 and self.b == 0 and list(self.t.values()) == [1]:
+            return parts[0]
+        return '(' + ' + '.join(parts) + ')'
 
 
 def norm(s):
-    return s.b if isinstance(s, Sym) and s.a == 0 else s
+    return s.b if isinstance(s, Sym) and not s.t else s
+
+
+def nonneg(f, bounds):
+    """is the linear form f ≥ 0 for all values of its symbols?  `bounds`: list of (counter, K) innermost last,
+    meaning 0 ≤ counter ≤ K − 1; every remaining (dimension) symbol ranges over the naturals."""
+    f = Sym.of(f)
+    for name, K in reversed(bounds):
+        c = f.t.get(name, 0)
+        if c > 0:
+            f = f.subst(name, 0)
+        elif c < 0:
+            f = f.subst(name, Sym.of(K) - 1)
+    f = Sym.of(f)
+    return f.b >= 0 and all(c >= 0 for c in f.t.values())
+
+
+def merge_intervals(iv):
+    """join half-open intervals whose end points coincide syntactically (as linear forms)"""
+    iv = list(iv)
+    again = True
+    while again:
+        again = False
+        for x in range(len(iv)):
+            for y in range(len(iv)):
+                if x != y and iv[x][1] == iv[y][0]:
+                    m = (iv[x][0], iv[y][1])
+                    iv = [z for q, z in enumerate(iv) if q not in (x, y)] + [m]
+                    again = True
+                    break
+            if again:
+                break
+    return iv
 
 
 def dstr(d):
     return str(d)
+
+
+def istr(d):
+    """text of an integer-valued intermediate (never used in the output when it is negative)"""
+    try:
+        return str(d)
+    except TrErr:
+        return '<negative index>'
 
 
 def is_int(d):
@@ -148,6 +212,8 @@ def lean_ty(ty):
         return f'Mat α {dstr(ty[1])} {dstr(ty[2])}'
     if ty[0] == 'T':
         return ' × '.join(['α'] * ty[1])
+    if ty[0] == 'P':
+        return f'{lean_ty(ty[1])} × {lean_ty(ty[2])}'
     raise TrErr('no Lean type for ' + str(ty))
 
 
@@ -167,10 +233,15 @@ class Val:
 class Var:
     def __init__(self, name, ty, kind, written=None):
         self.name, self.ty, self.kind = name, ty, kind   # kind: in | out | local | const | int
-        self.written = written       # set of cells, or 'all', for V/M variables
+        # definite-assignment state of V/M variables: 'all', a set of cells (static sizes), or a list of
+        # half-open row intervals (lo, hi) of linear forms (vectors of symbolic size)
+        if written is not None and written != 'all' and ty[0] == 'V' and not is_int(ty[1]):
+            written = list(written)
+        self.written = written
         self.in_lean = kind in ('in', 'const')
         self.alias = None            # for Q maps: Val of the mapped vector
         self.value = None            # for kind 'int'
+        self.view = None             # for kind 'alias' (Eigen::Ref): the viewed block (var, r0, c0, nr, nc, vec)
 
 
 # ------------------------------------------------------------------ one function
@@ -183,6 +254,13 @@ class FnTr:
         self.branch_depth = 0
         self.branch_assigned = None
         self.tmp = 0
+        self.loops = []              # active loops with a symbolic bound: dicts (var, K, pre, assigned)
+
+    def bounds(self):
+        return [(l['var'], l['K']) for l in self.loops]
+
+    def le(self, a, b):
+        return nonneg(Sym.of(b) - Sym.of(a), self.bounds())
 
     def err(self, msg):
         return TrErr(f'{self.where}: {msg}')
@@ -205,6 +283,8 @@ class FnTr:
                 return ('S',)
             if n == 'auto':
                 return ('AUTO',)
+            if n == 'double':
+                return ('DBL',)
             if n == 'void':
                 return None
             if n in self.aliases:
@@ -212,6 +292,12 @@ class FnTr:
             if n in REF_TYPES:
                 return self.ref_type(n)[1]
             raise self.err('unsupported type ' + n)
+        if t[0] == ('id', 'std') and t[2] == ('id', 'pair'):
+            e = match_angle(t, 3)
+            a = split_commas(t[4:e])
+            if e != len(t) - 1 or len(a) != 2:
+                raise self.err('unsupported std::pair type: ' + show(t))
+            return ('P', self.parse_type(a[0]), self.parse_type(a[1]))
         if t[0] == ('id', 'std') and t[2] == ('id', 'array'):
             e = match_angle(t, 3)
             a = split_commas(t[4:e])
@@ -223,9 +309,9 @@ class FnTr:
             e = match_angle(t, 3)
             if e != len(t) - 1:
                 raise self.err('unsupported type: ' + show(t))
-            a = split_commas(t[4:e])
             if name in ('Map', 'Ref'):
-                return self.parse_type(a[0])
+                return self.parse_type(t[4:e])
+            a = split_commas(t[4:e])
             if a[0] != [('id', 'Scalar')]:
                 raise self.err('Eigen type over a scalar other than Scalar: ' + show(t))
             if name == 'Matrix' and len(a) == 3:
@@ -285,6 +371,11 @@ class FnTr:
         v = self.env[src[0]]
         if v.written == 'all':
             return
+        if isinstance(v.written, list):
+            lo, hi = src[1], src[1] + src[3]
+            if any(self.le(a, lo) and self.le(hi, b) for a, b in v.written):
+                return
+            raise self.err(f'read of entries [{Sym.of(lo)}, {Sym.of(hi)}) of `{src[0]}` which are not (provably) assigned yet')
         need = self.cells(*src[1:5])
         if need is None:
             raise self.err(f'cannot analyse a read of `{src[0]}` (symbolic size) before it is fully assigned')
@@ -298,6 +389,11 @@ class FnTr:
         nr, nc = shape(v.ty)
         if (src[1], src[2]) == (0, 0) and src[3] == nr and src[4] == nc:
             v.written = 'all'
+            return
+        if isinstance(v.written, list):
+            v.written = merge_intervals(v.written + [(src[1], src[1] + src[3])])
+            if any(a == 0 and b == nr for a, b in v.written):
+                v.written = 'all'
             return
         w = self.cells(*src[1:5])
         if w is None:
@@ -315,7 +411,7 @@ class FnTr:
         if v.ty[0] == 'V':
             if r0 == 0:
                 return f'(head {dstr(nr)} {name})'
-            if r0 + nr == fr:
+            if r0 + nr == fr and is_int(fr):
                 return f'(tail {dstr(nr)} {name})'
             return f'(segment {dstr(nr)} {dstr(r0)} {name})'
         if vec:
@@ -325,13 +421,14 @@ class FnTr:
     def coeff(self, src, i, j):
         """Val of the coefficient (i,j) relative to the view"""
         name, r0, c0, nr, nc, vec = src
-        if not (is_int(i) and is_int(j)):
-            raise self.err('non-constant coefficient index')
-        if is_int(nr) and is_int(nc) and not (0 <= i < nr and 0 <= j < nc):
+        if not all(self.le(0, x) and self.le(x + 1, m) for x, m in ((i, nr), (j, nc))):
             raise self.err(f'coefficient ({i},{j}) out of range of `{name}` view {nr}x{nc}')
         v = self.env[name]
         a, b = r0 + i, c0 + j
-        lean = f'({name} {dstr(a)})' if v.ty[0] == 'V' else f'({name} {dstr(a)} {dstr(b)})'
+
+        def ix(x):
+            return dstr(x) if is_int(x) else f'⟨{Sym.of(x)}, by omega⟩'
+        lean = f'({name} {ix(a)})' if v.ty[0] == 'V' else f'({name} {ix(a)} {ix(b)})'
         return Val(lean, ('S',), (name, a, b, 1, 1, False))
 
     # ---------------------------------------------------------------- expressions
@@ -351,6 +448,8 @@ class FnTr:
         if v.ty[0] == 'S':
             return v.lean
         if v.ty[0] == 'I':
+            if not is_int(v.ty[1]):
+                raise self.err(f'{what}: a symbolic dimension / loop counter used as a scalar value')
             return nat_lit(v.ty[1])
         if v.ty[0] == 'D':
             raise self.err(f'bare floating literal `{v.ty[1]}` in arithmetic (only Scalar(…) casts and whole '
@@ -391,8 +490,7 @@ class FnTr:
             need(1, 1 if name == 'segment' else 0)
             k = ta[0]
             off = 0 if name == 'head' else (nr - k if name == 'tail' else args[0])
-            if is_int(k) and is_int(nr) and is_int(off):
-                chk(0 <= off and off + k <= nr)
+            chk(self.le(0, off) and self.le(off + k, nr))
             return (var, r0 + off, c0, k, 1, True)
         if base_is_vec:
             raise self.err(f'.{name} on a vector')
@@ -409,8 +507,7 @@ class FnTr:
             r, c, i, j = nr, 1, 0, args[0]
         else:
             raise self.err('unsupported block method .' + name)
-        if all(is_int(x) for x in (r, c, i, j, nr, nc)):
-            chk(0 <= i and 0 <= j and i + r <= nr and j + c <= nc)
+        chk(self.le(0, i) and self.le(0, j) and self.le(i + r, nr) and self.le(j + c, nc))
         return (var, r0 + i, c0 + j, r, c, c == 1)
 
     def ev_view(self, node):
@@ -423,11 +520,15 @@ class FnTr:
             n = node[1]
             if n == 'eps2':
                 raise self.err('bare `eps2` (double) outside of a Scalar(…) cast')
+            if n not in self.env and n in self.cls.consts:
+                return Val(istr(self.cls.consts[n]), ('I', self.cls.consts[n]))
             if n not in self.env:
                 raise self.err('unknown identifier ' + n)
             v = self.env[n]
             if v.kind == 'int':
-                return Val(str(v.value), ('I', v.value))
+                return Val(istr(v.value), ('I', v.value))
+            if v.kind == 'alias':
+                return Val(self.render(v.view), v.ty, v.view)
             if v.ty[0] == 'Q':
                 return Val(v.alias.lean, ('Q',))
             if v.ty[0] in ('S', 'T'):
@@ -437,7 +538,7 @@ class FnTr:
         if k == 'neg':
             a = self.ev(node[1])
             if a.ty[0] == 'I':
-                return Val(str(-a.ty[1]), ('I', -a.ty[1]))
+                return Val(istr(-a.ty[1]), ('I', -a.ty[1]))
             if a.ty[0] == 'S':
                 return Val(f'(-{a.lean})', ('S',))
             if a.ty[0] == 'V':
@@ -497,7 +598,7 @@ class FnTr:
                 raise self.err(f'integer division {a.lean} / {b.lean}')
             x, y = a.ty[1], b.ty[1]
             r = x + y if op == '+' else x - y if op == '-' else x * y
-            return Val(str(r), ('I', r))
+            return Val(istr(r), ('I', r))
         sc = ('S', 'I', 'D')
         if ta in sc and tb in sc:
             return Val(f'({self.scalar(a)} {op} {self.scalar(b)})', ('S',))
@@ -584,6 +685,8 @@ class FnTr:
         raise self.err(f'unsupported member function .{name}() on {base.ty}')
 
     def resolve_callee(self, quals, name):
+        if quals == [] and name == 'd_matrix_product':
+            return ('dmp',)
         if quals in ([], ['std']) and name in SCALAR_FUNS:
             return ('scalar', SCALAR_FUNS[name])
         if quals in ([], ['detail']) and name in TRIG_FUNS:
@@ -601,6 +704,19 @@ class FnTr:
     def call_value(self, node):
         _, quals, name, args = node
         r = self.resolve_callee(quals, name)
+        if r[0] == 'dmp':
+            # the free template d_matrix_product of detail/derivatives_impl.hpp: NOT translated (its text is pinned by
+            # tools/gen_base.py); mapped to the hand model Derivs.d_matrix_product (square n×n factors, nvar variables)
+            a = [self.ev(x) for x in args]
+            if len(a) != 4 or any(x.ty[0] != 'M' for x in a):
+                raise self.err('d_matrix_product: expected four matrix arguments')
+            n = a[0].ty[1]
+            if not (is_int(n) and a[0].ty == ('M', n, n) and a[2].ty == ('M', n, n) and a[1].ty == a[3].ty
+                    and a[1].ty[1] == n and is_int(a[1].ty[2]) and a[1].ty[2] % n == 0):
+                raise self.err('d_matrix_product: unsupported shapes ' + str([x.ty for x in a]))
+            nvar = a[1].ty[2] // n
+            self.gen.opaque.add('d_matrix_product')
+            return Val(f'(Derivs.d_matrix_product (n := {n}) (nvar := {nvar}) ' + ' '.join(x.lean for x in a) + ')', a[1].ty)
         if r[0] == 'scalar':
             a = [self.scalar(self.ev(x), f'argument of {name}') for x in args]
             return Val('(' + r[1] + ' ' + ' '.join(a) + ')', ('S',))
@@ -677,7 +793,11 @@ class FnTr:
         else:
             if not v.in_lean:
                 u = f'uninitV {dstr(fr)}' if v.ty[0] == 'V' else f'uninitM {dstr(fr)} {dstr(fc)}'
-                self.emit(f'let {name} : {lean_ty(v.ty)} := {u}')
+                outer = [l for l in self.loops if name in l['outer']]
+                if outer:
+                    outer[0]['pre'].append(f'let {name} : {lean_ty(v.ty)} := {u}')
+                else:
+                    self.emit(f'let {name} : {lean_ty(v.ty)} := {u}')
             if v.ty[0] == 'V':
                 f = f'setCoeffV {name} {dstr(r0)}' if kind == 'S' else f'setSegment {name} {dstr(r0)}'
             elif kind == 'S':
@@ -687,10 +807,15 @@ class FnTr:
             else:
                 f = f'setBlock {name} {dstr(r0)} {dstr(c0)}'
             self.emit(f'let {name} : {lean_ty(v.ty)} := {f} {lean}')
+        if whole and not v.in_lean and any(name in l['outer'] for l in self.loops):
+            raise self.err(f'first (whole) assignment to `{name}` inside a loop with a symbolic bound')
         v.in_lean = True
         self.mark_written(src)
         if self.branch_assigned is not None:
             self.branch_assigned.add(name)
+        for l in self.loops:
+            if name in l['outer']:
+                l['assigned'].add(name)
 
     # ---------------------------------------------------------------- statements
     def stmt_end(self, toks, i):
@@ -785,13 +910,10 @@ class FnTr:
             if t == ('id', 'for'):
                 he = match_close(toks, i + 1)
                 h = toks[i + 2:he]
-                # auto NAME = INT ; NAME < INT ; ++ NAME
-                ok = (len(h) == 12 and h[0] == ('id', 'auto') and h[1][0] == 'id' and h[2] == ('op', '=')
+                # auto NAME = INT ; NAME < BOUND ; ++ NAME     (BOUND: literal or class constant)
+                ok = (len(h) == 11 and h[0] == ('id', 'auto') and h[1][0] == 'id' and h[2] == ('op', '=')
                       and h[3][0] == 'int' and h[4] == ('op', ';') and h[5] == h[1] and h[6] == ('op', '<')
-                      and h[7][0] == 'int' and h[8] == ('op', ';') and h[9] == ('op', '++') and h[10] == h[1]) \
-                    or (len(h) == 11 and h[0] == ('id', 'auto') and h[1][0] == 'id' and h[2] == ('op', '=')
-                        and h[3][0] == 'int' and h[4] == ('op', ';') and h[5] == h[1] and h[6] == ('op', '<')
-                        and h[7][0] == 'int' and h[8] == ('op', ';') and h[9] == ('op', '++') and h[10] == h[1])
+                      and h[7][0] in ('int', 'id') and h[8] == ('op', ';') and h[9] == ('op', '++') and h[10] == h[1])
                 if not ok:
                     raise self.err('unsupported for-loop header: ' + show(h, 20))
                 if mode == 'lambda':
@@ -801,8 +923,15 @@ class FnTr:
                 be = match_close(toks, he + 1)
                 body = toks[he + 2:be]
                 lv = h[1][1]
+                bound = self.cint([h[7]])
+                if not is_int(bound):
+                    if h[3][1] != 0:
+                        raise self.err('loop with a symbolic bound must start at 0')
+                    self.sym_loop(lv, bound, body)
+                    i = be + 1
+                    continue
                 outer = dict(self.env)
-                for kk in range(h[3][1], h[7][1]):
+                for kk in range(h[3][1], bound):
                     scope = dict(self.env)
                     v = self.declare(lv, ('I', kk), 'int')
                     v.value = kk
@@ -830,6 +959,18 @@ class FnTr:
                     return
                 if self.ret_ty is None or self.branch_depth:
                     raise self.err('return in a void function or inside a conditional')
+                if self.ret_ty[0] == 'P':
+                    if not r or r[0] != ('op', '{') or match_close(r, 0) != len(r) - 1:
+                        raise self.err('a function returning std::pair must `return {a, b};`')
+                    parts = split_commas(r[1:-1])
+                    if len(parts) != 2:
+                        raise self.err(f'return of {len(parts)} values, expected 2')
+                    vals = [self.ev(self.parse(p)) for p in parts]
+                    for v, want in zip(vals, self.ret_ty[1:]):
+                        if v.ty != want:
+                            raise self.err(f'returned component has type {v.ty}, declared {want}')
+                    self.result = '(' + vals[0].lean + ', ' + vals[1].lean + ')'
+                    return
                 v = self.ev(self.parse(r))
                 if v.ty != self.ret_ty:
                     raise self.err(f'returned value has type {v.ty}, declared {self.ret_ty}')
@@ -848,8 +989,69 @@ class FnTr:
         if mode == 'lambda':
             raise self.err('lambda body without return')
 
+    def sym_loop(self, lv, K, body):
+        """`for (auto lv = 0u; lv < K; ++lv) { body }` with a symbolic bound K: emitted as
+        `forLoop K (fun lv h_lv x => body; x) x` (EigenSem.forLoop: iterations 0, 1, …, K−1 in this order) where x
+        is the one outer variable the body assigns."""
+        hyp = 'h' + lv
+        if lv in self.env or hyp in self.env or lv in LEAN_KEYWORDS:
+            raise self.err(f'loop counter `{lv}` (or `{hyp}`) clashes with another identifier')
+        if self.branch_depth:
+            raise self.err('loop inside a conditional')
+        outer = dict(self.env)
+        loop = {'var': lv, 'K': K, 'pre': [], 'assigned': set(), 'outer': set(outer)}
+        before = {k: (list(v.written) if isinstance(v.written, list) else None) for k, v in outer.items()}
+        lines, ind = self.lines, self.ind
+        self.lines, self.ind = [], ind + '    '
+        self.loops.append(loop)
+        v = self.declare(lv, ('I', Sym.var(lv)), 'int')
+        v.value = Sym.var(lv)
+        self.run_block(body, 'fn')
+        self.loops.pop()
+        sub = self.lines
+        self.lines, self.ind = lines, ind
+        self.env = {k2: v2 for k2, v2 in self.env.items() if k2 in outer}
+        if len(loop['assigned']) != 1:
+            raise self.err(f'a loop with a symbolic bound must assign exactly one outer variable, assigns {sorted(loop["assigned"])}')
+        x = next(iter(loop['assigned']))
+        xv = self.env[x]
+        # entries written by iteration lv: [p·lv + q, p·lv + q + p)  ->  after the loop [q, q + p·K)
+        if isinstance(xv.written, list):
+            res = []
+            for lo, hi in xv.written:
+                lo, hi = Sym.of(lo), Sym.of(hi)
+                p = lo.t.get(lv, 0)
+                if p == 0 and hi.t.get(lv, 0) == 0:
+                    res.append((norm(lo), norm(hi)))
+                    continue
+                if (lo, hi) in [(Sym.of(a), Sym.of(b)) for a, b in (before[x] or [])]:
+                    continue
+                if not (p > 0 and Sym.of(hi - lo) == Sym.of(p)):
+                    raise self.err(f'cannot analyse the entries of `{x}` written by the loop over `{lv}`: [{lo}, {hi})')
+                q = lo.subst(lv, 0)
+                res.append((norm(q), norm(q + Sym.of(K) * p)))
+            xv.written = merge_intervals(res)
+            if any(a == 0 and b == xv.ty[1] for a, b in xv.written):
+                xv.written = 'all'
+        for other, w in before.items():
+            if other != x and isinstance(self.env[other].written, list) and self.env[other].written != w:
+                raise self.err(f'loop over `{lv}` changes the assignment state of `{other}`')
+        for l in self.loops:
+            if x in l['outer']:
+                l['assigned'].add(x)
+        if self.loops and loop['pre']:
+            self.loops[0]['pre'] += loop['pre']
+        else:
+            for ln in loop['pre']:
+                self.emit(ln)
+        self.emit(f'let {x} : {lean_ty(xv.ty)} := forLoop {dstr(K)} (fun {lv} {hyp} {x} =>')
+        self.lines += sub
+        self.emit(f'    {x}) {x}')
+        if self.branch_assigned is not None:
+            self.branch_assigned.add(x)
+
     def cond_update(self, cond, body):
-        saved_w = {k: (v.written if v.written == 'all' or v.written is None else set(v.written))
+        saved_w = {k: (v.written if v.written == 'all' or v.written is None else type(v.written)(v.written))
                    for k, v in self.env.items()}
         lines, ind, env0 = self.lines, self.ind, dict(self.env)
         outer_assigned = self.branch_assigned
@@ -881,6 +1083,17 @@ class FnTr:
             if t[e + 1] != ('op', '='):
                 raise self.err('structured binding without initialiser')
             v = self.ev(self.parse(t[e + 2:]))
+            if v.ty[0] == 'P' and len(names) == 2 and mode != 'lambda':
+                # [const] auto [A, B] = f(x);  with f returning std::pair: two locals (copies)
+                tup = '_' + '_'.join(names)
+                self.emit(f'let {tup} : {lean_ty(v.ty)} := {v.lean}')
+                for nm, cty, proj in zip(names, v.ty[1:], ('.1', '.2')):
+                    if cty[0] not in ('V', 'M'):
+                        raise self.err('structured binding of a pair with a non-matrix component')
+                    var = self.declare(nm, cty, 'const' if is_const else 'local', 'all')
+                    var.in_lean = True
+                    self.emit(f'let {nm} : {lean_ty(cty)} := {tup}{proj}')
+                return
             if v.ty[0] != 'T' or v.ty[1] != len(names):
                 raise self.err(f'structured binding of {len(names)} names to a value of type {v.ty}')
             tup = '_' + '_'.join(names)
@@ -892,9 +1105,11 @@ class FnTr:
                 self.emit(f'let {nm} : α := {tup}{proj}')
             return
         # type
+        is_ref = False
         if t[0] == ('id', 'Eigen'):
             e = match_angle(t, 3)
             ty = self.parse_type(t[:e + 1])
+            is_ref = t[2] == ('id', 'Ref')
             rest = t[e + 1:]
         else:
             ty = self.parse_type(t[:1])
@@ -903,6 +1118,35 @@ class FnTr:
             name = d[0][1]
             if d[0][0] != 'id':
                 raise self.err('unsupported declarator: ' + show(d))
+            if is_ref:
+                # Eigen::Ref<[const] T> x = <block of a variable>;  a VIEW (no copy): reads see later writes
+                # to the viewed variable, writes through a non-const Ref go to it
+                if mode == 'lambda' or is_const or len(d) < 3 or d[1] != ('op', '='):
+                    raise self.err('unsupported Eigen::Ref declaration: ' + show(toks))
+                v = self.ev_view(self.parse(d[2:]))
+                if v.src is None or v.ty != ty:
+                    raise self.err(f'Eigen::Ref `{name}` must be bound to a block of a variable of type {ty} '
+                                   '(binding to an expression would create a temporary)')
+                const_ref = ('id', 'const') in t[:e + 1]
+                if not const_ref and self.env[v.src[0]].kind not in ('out', 'local'):
+                    raise self.err(f'non-const Eigen::Ref `{name}` to `{v.src[0]}`, which is not an output or a mutable local')
+                if name in LEAN_KEYWORDS:
+                    raise self.err(f'identifier `{name}` is a Lean keyword')
+                a = self.declare(name, ty, 'alias')
+                a.view, a.in_lean = v.src, True
+                continue
+            if ty == ('DBL',):
+                # `const double t = <Scalar coefficient>;` — the value round-trips exactly through double for
+                # Scalar ∈ {float, double} (Eigen converts it back to Scalar in `M * t`); recorded as a note
+                if not (is_const and len(d) > 2 and d[1] == ('op', '=')):
+                    raise self.err('unsupported declaration of a double: ' + show(toks))
+                v = self.ev(self.parse(d[2:]))
+                if v.ty != ('S',) or v.src is None:
+                    raise self.err('a local `double` must be initialised from one Scalar coefficient: ' + show(toks))
+                self.gen.notes.append(f'{self.where}: local `{name}` is declared `double`, not `Scalar` (initialised from the '
+                                      f'coefficient {v.lean}); translated as a Scalar — exact for Scalar ∈ {{float, double}}')
+                self.bind(name, ('S',), v, True)
+                continue
             if mode == 'lambda' and ty not in (('S',), ('AUTO',)):
                 raise self.err('non-scalar declaration inside a lambda: ' + show(toks))
             if len(d) == 1:
@@ -989,6 +1233,10 @@ class FnTr:
                 if kind == 'S':
                     raise self.err(f'.{node[2]}() on a coefficient')
                 nr, nc = src[3], src[4]
+                if node[2] == 'setIdentity' and (nr, nc) == (1, 1):
+                    # a 1x1 block: Identity is the scalar 1
+                    self.assign((src[0], src[1], src[2], 1, 1, False), 'S', Val('(nat 1)', ('S',)))
+                    return
                 if node[2] == 'setZero':
                     val = Val(f'(vzero {dstr(nr)})', ('V', nr)) if kind == 'V' else Val(f'(mzero {dstr(nr)} {dstr(nc)})', ('M', nr, nc))
                 else:
@@ -1060,7 +1308,7 @@ class FnTr:
         outs = [s for s in sig if s[1] == 'out']
         if ret is None and len(outs) != 1:
             raise self.err('void function must have exactly one output parameter')
-        if ret is not None and (outs or ret[0] not in ('V', 'M', 'S')):
+        if ret is not None and (outs or ret[0] not in ('V', 'M', 'S', 'P')):
             raise self.err('unsupported return type / output parameters')
         for name, kind, ty in sig:
             self.declare(name, ty, kind, 'all' if kind == 'in' else set())
@@ -1077,8 +1325,8 @@ class FnTr:
                 raise self.err('missing return')
             rty = ret
         ins = [(n, t) for n, k, t in sig if k == 'in']
-        sym = any(isinstance(x, Sym) for _, t in ins for x in t[1:]) or any(isinstance(x, Sym) for x in rty[1:])
-        hdr = f'def {self.fn.name}' + (' {n : Nat}' if sym else '') + \
+        sym = any(isinstance(x, Sym) for _, t in ins for x in t[1:]) or any(isinstance(x, Sym) for x in rty[1:] if not isinstance(x, tuple))
+        hdr = f'def {self.fn.name}' + (' {%s : Nat}' % SYMBOLIC[self.cls.key][1] if sym else '') + \
               ''.join(f' ({n} : {lean_ty(t)})' for n, t in ins) + f' : {lean_ty(rty)} :='
         return hdr + '\n' + '\n'.join(self.lines + ['  ' + self.result]) + '\n', ins, rty
 
@@ -1088,13 +1336,15 @@ class Gen:
     def __init__(self, repo):
         self.repo = repo
         self.classes, self.by_cname, self._sig = [], {}, {}
+        self.notes = []
+        self.opaque = set()
         d = os.path.join(repo, 'include/smooth/detail')
         for hdr, cname, key in CLASSES:
             p = os.path.join(d, hdr)
             if not os.path.exists(p):
                 raise TrErr('missing header ' + p)
             src = strip_comments(open(p).read())
-            pre = {'N': Sym(1, 0)} if key == 'Tn' else {}
+            pre = {SYMBOLIC[key][0]: Sym.var(SYMBOLIC[key][1])} if key in SYMBOLIC else {}
 
             def ce(toks, consts, pre=pre):
                 return const_eval(toks, dict(pre, **consts))
@@ -1156,7 +1406,7 @@ def generate(repo):
     g = Gen(repo)
     order, texts, info, skipped = g.run()
     L = ['/- GENERATED by tools/gen_src.py (tools/gen_impl.py) from include/smooth/detail/',
-         '   {so2,c1,tn,se2,so3,se3}.hpp.  Do not edit: regenerated from the repository on every check run.',
+         '   {so2,c1,tn,se2,so3,se3,galilei,se_k_3}.hpp.  Do not edit: regenerated from the repository on every check run.',
          '   Every static function of the Impl classes is transliterated statement by statement; Eigen constructs',
          '   are mapped through the fixed table of SmoothModel/EigenSem.lean (+ Lin.lean).',
          '', '   TRANSLATED']
@@ -1166,7 +1416,13 @@ def generate(repo):
     L.append('   NOT TRANSLATED')
     for c, fn, why in skipped:
         L.append(f'     {c.name}::{fn} — {why}')
-    L += ['-/', 'import SmoothModel.Lin', 'import SmoothModel.EigenSem', 'import SmoothModel.Gen.CoefSrc',
+    if g.notes:
+        L.append('   NOTES')
+        L += ['     ' + n for n in g.notes]
+    if g.opaque:
+        L.append('   OPAQUE CALLEES (not translated; text pinned by tools/gen_base.py, mapped to the hand model): '
+                 + ', '.join(f'{x} ↦ Derivs.{x}' for x in sorted(g.opaque)))
+    L += ['-/', 'import SmoothModel.Lin', 'import SmoothModel.Derivs', 'import SmoothModel.EigenSem', 'import SmoothModel.Gen.CoefSrc',
           'set_option linter.unusedVariables false', 'open Scalar Lin EigenSem', 'namespace ImplSrc',
           'variable {α : Type} [Scalar α]', '']
     cur = None
@@ -1184,6 +1440,13 @@ def generate(repo):
     L.append('def manifest : List String := [' + ', '.join(f'"{n}"' for n in names) + ']')
     L.append('/-- static functions of the Impl classes that are NOT translated -/')
     L.append('def notTranslated : List String := [' + ', '.join(f'"{c.key}.{fn}"' for c, fn, _ in skipped) + ']')
+    L.append('/-- `(RepSize, Dim, Dof, IsCommutative)` of each Impl class, as declared in the source (tied by `SrcTieImpl.consts_*`) -/')
+    for c in g.classes:
+        if 'IsCommutative' not in c.bools:
+            raise TrErr(f'{c.name}: constant IsCommutative not found')
+        b = SYMBOLIC[c.key][1] if c.key in SYMBOLIC else None
+        vals = ', '.join(dstr(c.consts[k2]) for k2 in ('RepSize', 'Dim', 'Dof')) + ', ' + ('true' if c.bools['IsCommutative'] else 'false')
+        L.append(f'def consts_{c.key}' + (f' ({b} : Nat)' if b else '') + f' : Nat × Nat × Nat × Bool := ({vals})')
     L.append('')
     L.append('end ImplSrc')
     return '\n'.join(L) + '\n'
